@@ -33,6 +33,8 @@ func (engine) Shrink(ci any, stillFails func(any) bool) any {
 			return len(c.Msgs)
 		case "msglist":
 			return len(c.Lists)
+		case "deep":
+			return len(c.Deep)
 		}
 		return len(c.MMaps)
 	}
@@ -48,6 +50,8 @@ func (engine) Shrink(ci any, stillFails func(any) bool) any {
 				c.Msgs = append(c.Msgs[:i:i], c.Msgs[i+1:]...)
 			case "msglist":
 				c.Lists = append(c.Lists[:i:i], c.Lists[i+1:]...)
+			case "deep":
+				c.Deep = append(c.Deep[:i:i], c.Deep[i+1:]...)
 			default:
 				c.MMaps = append(c.MMaps[:i:i], c.MMaps[i+1:]...)
 			}
@@ -72,6 +76,26 @@ func (engine) Shrink(ci any, stillFails func(any) bool) any {
 					i, k := i, k
 					if try(func(c *Case) bool { delete(c.Chunks[i].M, k); return true }) {
 						progress = true
+					}
+				}
+			}
+		}
+		if cur.Kind == "deep" {
+			// keys at the first two levels
+			for i := range cur.Deep {
+				for k, v := range cur.Deep[i] {
+					i, k := i, k
+					if try(func(c *Case) bool { delete(c.Deep[i], k); return true }) {
+						progress = true
+						continue
+					}
+					if v.K == "map" {
+						for k2 := range v.M {
+							k2 := k2
+							if try(func(c *Case) bool { delete(c.Deep[i][k].M, k2); return true }) {
+								progress = true
+							}
+						}
 					}
 				}
 			}
